@@ -157,12 +157,12 @@ def run_cases(ck, cases_path, tag, thorough):
         ck.report("harness:c15-run", "harness run failed: %s" % log[-800:], replay={"log": log[-3000:]}, found_input=False)
         return []
     recs = [json.loads(l) for l in open(out) if l.strip()]
-    reqs = [r["model_req"] for r in recs if "model_req" in r]
+    reqs = [r["model_req"] for r in recs if r.get("model_req")]
     rc2, ans = vlib.sh([vlib.lean_exe("drv_c15")], stdin="\n".join(reqs) + "\n", timeout=3000)
     ans = ans.split("\n")
     i = 0
     for r in recs:
-        if "model_req" in r:
+        if r.get("model_req"):
             r["model"] = parse_model(ans[i] if i < len(ans) else "bad-request")
             i += 1
     return recs
@@ -233,6 +233,26 @@ def run(ck):
                           replay={"engine": r["engine"], "setup": r["setup"], "stmt": r["stmt"]})
             elif not r.get("names_ok", True):
                 info["plan-shape-not-modelled"] += 1
+        elif r["type"] == "helper-fault":
+            # a failure (error or panic) inside the blocking CSV reader / writer thread of COPY:
+            # the statement must return Err and commit nothing
+            dist["ops"]["helper:" + r["helper"]] += 1
+            ivo["compared"] += 1
+            if r["fired"] and (r["class"] != "err" or not r["tables_eq_pre"]):
+                ivo["disagree"] += 1
+                ck.report("fault:helper-failure-lost/%s" % r["helper"],
+                          "`%s` (%s engine): %s injected in the blocking %s thread at %s %d is not reported: Database::run returns %s%s" % (
+                              r["stmt"], r["engine"], r["kind"], "reader" if r["helper"] == "copy_from" else "writer",
+                              "record" if r["helper"] == "copy_from" else "chunk", r["k"], r["class"],
+                              "" if r["tables_eq_pre"] else " and the rows delivered before it are committed"),
+                          replay={"engine": r["engine"], "setup": r["setup"], "stmt": r["stmt"], "helper": r["helper"], "k": r["k"], "kind": r["kind"],
+                                  "class": r["class"], "tables_eq_pre": r["tables_eq_pre"]})
+            m = r.get("model")
+            if m and r["fired"]:
+                mvi["compared"] += 1
+                if m["class"] != r["class"] or (m.get("dml") and not m["dml"]["commit"] and not r["tables_eq_pre"]):
+                    mvi["disagree"] += 1
+                    disagree_by_shape.setdefault("copy-helper", (dict(r, op=r["helper"]), ["helper-thread fault: model %s, impl %s / tables unchanged %s" % (m["raw"], r["class"], r["tables_eq_pre"])]))
         elif r["type"] == "skip":
             info["skipped:" + r["why"][:40]] += 1
         elif r["type"] == "fault":
@@ -299,7 +319,7 @@ def run(ck):
         # others; a bare disagreement is reported with the pair, one report per statement shape)
         ck.report("corr:stream-model/" + shape, "L9 model and implementation disagree: %s on `%s` fault %s#%s %s" % ("; ".join(d), r["stmt"], r.get("op"), r.get("k"), r.get("kind")),
                   replay={"engine": r["engine"], "setup": r["setup"], "stmt": r["stmt"], "record": {k: v for k, v in r.items() if k not in ("setup",)}},
-                  found_input=bool(oracle(r)))
+                  found_input=(bool(oracle(r)) if r.get("type") == "fault" else r.get("class") != "err"))
 
     # ---- the channel machine vs the real async_broadcast crate
     chreq = os.path.join(ck.work, "chan.txt")
